@@ -309,7 +309,35 @@ def gen_flags(rng: random.Random, tier: str) -> dict:
         s = f"y ~ [ {lhs} ~ {rhs} ] + c"
     else:
         s = ("~ " if rng.random() < 0.3 else "") + rhs
-    return {"s": s, "uses": kind, "icpt": rng.random() < 0.5, "flags": rng.choice(FLAGSETS)}
+    case = {"s": s, "uses": kind, "icpt": rng.random() < 0.5, "flags": rng.choice(FLAGSETS)}
+    if rng.random() < 0.4:  # the parser was configured differently (and used) before: reconfiguration history
+        case["prev_flags"] = [rng.choice(FLAGSETS) for _ in range(rng.randint(1, 2))]
+    return case
+
+
+def reconfigured_parser(case):
+    """A fresh parser that went through earlier flag configurations, parsing under each, before the one under test."""
+    from formulaic.errors import FormulaParsingError
+    from formulaic.parser import DefaultFormulaParser
+
+    def ff(names):
+        v = DefaultFormulaParser.FeatureFlags.NONE
+        for nm in names:
+            v |= getattr(DefaultFormulaParser.FeatureFlags, nm)
+        return v
+
+    hist = case["prev_flags"]
+    parser = DefaultFormulaParser(include_intercept=case["icpt"], feature_flags=ff(hist[0]))
+    for k, names in enumerate(hist):
+        if k:
+            parser.set_feature_flags(ff(names) if k % 2 else {nm.lower() for nm in names})
+        for probe in ("a + b", "y ~ a", "a | b", "y ~ [a ~ b] + c"):
+            try:
+                parser.get_terms(probe)
+            except FormulaParsingError:
+                pass
+    parser.set_feature_flags(ff(case["flags"]))
+    return parser
 
 
 def judge_flags(case) -> Outcome:
@@ -317,12 +345,13 @@ def judge_flags(case) -> Outcome:
     from formulaic.errors import FormulaParsingError
 
     out = Outcome()
-    out.sig = (case["uses"], tuple(case["flags"]), case["icpt"], len(case["s"]))
+    out.sig = (case["uses"], tuple(case["flags"]), case["icpt"], len(case["s"]), repr(case.get("prev_flags")))
     needs = {"twosided": ["TWOSIDED"], "multipart": ["MULTIPART"], "twosided+multipart": ["TWOSIDED", "MULTIPART"],
              "multistage": ["TWOSIDED", "MULTISTAGE"], "none": []}[case["uses"]]
     disabled = [f for f in needs if f not in case["flags"]]
     try:
-        Formula(case["s"], _parser=parser_for(case["icpt"], case["flags"]))
+        parser = reconfigured_parser(case) if case.get("prev_flags") else parser_for(case["icpt"], case["flags"])
+        Formula(case["s"], _parser=parser)
         if disabled:
             out.fail("c14.disabled_operator_accepted", f"{case['s']!r} parsed although {disabled} disabled (flags {case['flags']})")
         else:
